@@ -176,7 +176,7 @@ func c13Nontrivial(text string, forms []int) bool {
 	return esc && special
 }
 
-var c13Alphabet = []string{"a", " ", "'", "\"", "\\", "\n", "\r", "\t", "\b", "\f", "\v", "\x00", "\u2028", "\u2029", "\u0085", "\uff07", "\uff02", "\u2019", "\uff3c", "é", "ÿ", "中", "￿", "😀", "\xff", "\x80", "x", "u", "0", "n", "1", "\x7f", "\x1b"}
+var c13Alphabet = []string{"a", " ", "'", "\"", "\\", "\n", "\r", "\t", "\b", "\f", "\v", "\x00", "\u2028", "\u2029", "\u0085", "\uff07", "\uff02", "\u2019", "\uff3c", "_", "$", "é", "ÿ", "中", "￿", "😀", "\xff", "\x80", "x", "u", "0", "n", "1", "\x7f", "\x1b"}
 
 // TestC13Exhaustive: all texts of length <=2 over the alphabet x all escape
 // choices x both quotes x hex case; plus the unterminated variants.
